@@ -279,6 +279,19 @@ func (e *KnowledgeBase) RemoveRuleEntry(name string) {
 	}
 }
 
+// DiscardRuleEntries takes the given entries out of this knowledge base again, as far as it holds these very entries
+// under their names; an entry of the same name that was there before stays. The builder calls it with the rules of
+// a text it rejected.
+func (e *KnowledgeBase) DiscardRuleEntries(entries map[string]*RuleEntry) {
+	e.lock.Lock()
+	defer e.lock.Unlock()
+	for name, entry := range entries {
+		if held, ok := e.RuleEntries[name]; ok && held == entry {
+			delete(e.RuleEntries, name)
+		}
+	}
+}
+
 // InitializeContext will initialize this AST graph with data context and working memory before running rule on them.
 func (e *KnowledgeBase) InitializeContext(dataCtx IDataContext) {
 	e.DataContext = dataCtx
